@@ -24,12 +24,12 @@ CHECKS = {
 CHECKS["C05"] = dict(
     text="One theorem per operator (map, map_indexed, filter, filter_indexed, take, skip, take_while(+inclusive), "
          "skip_while, pairwise, start_with, default_if_empty, ignore_elements, take_last, take_last_buffer, "
-         "element_at(_or_default), materialize, dematerialize o materialize): for every finite input and every "
+         "element_at(_or_default), distinct, distinct_until_changed, find/find_index, skip_last, materialize, dematerialize o materialize): for every finite input and every "
          "termination the machine's tagged output equals the list computation (tags carry the timing clause); plus "
          "the grammar theorem for every machine on arbitrary input.  Machines are hand-written from the code and "
-         "tied to it by K2 differential runs (hot source, non-conforming tails, raising callbacks).  distinct, "
-         "distinct_until_changed, skip_last, find/find_index, take_while_indexed, skip_while_indexed, filter_indexed "
-         "with raising callbacks: modelled and in the correspondence + Python-list oracle, no closed-form theorem yet.",
+         "tied to it by K2 differential runs (hot source, non-conforming tails, raising callbacks, re-subscription "
+         "warm-ups).  take_while_indexed, skip_while_indexed (a composition) and the raising-callback variants: "
+         "modelled and in the correspondence + Python-list oracle, closed forms only for pure callbacks.",
     note=COMMON_NOTE + "Machines of Ops/Elementwise.v are models (correspondence-checked, not extracted from the "
          "code); pluck/starmap are map instances and are covered through map only.",
     technique="Coq proof (induction over the input list) on Mealy-machine models + differential correspondence "
